@@ -1238,6 +1238,14 @@ func (c *Compiler) adjustJumpTargets(headerOffset uint32) {
 				binary.LittleEndian.PutUint32(c.code[i:i+4], newTarget)
 			}
 			i += 4
+		} else if opcode == byte(vm.OpAsync) {
+			// The body of an async block follows its length operand. It runs
+			// on a VM of its own from offset 0, so its jump targets are
+			// relative to the body and must not be shifted by the header.
+			if i+4 <= len(c.code) {
+				i += int(binary.LittleEndian.Uint32(c.code[i : i+4]))
+			}
+			i += 4
 		} else if hasOperand(opcode) {
 			// Skip operand for other instructions with operands
 			i += 4
